@@ -1,10 +1,13 @@
 """C08 — fit ends in a coherent fitted object or a clean AssertionError."""
-from harness import k_api, k_categorical, k_ordinal, k_quantiles, k_transform
+from harness import C10, k_api, k_categorical, k_ordinal, k_quantiles, k_transform
 
 
 def obligations(tier):
     quick = tier == "quick"
-    return [
+    multi = C10.obligations(tier)[0]
+    multi.name = "O8.10 several features at once (quantitative, qualitative, numeric-valued, two identifier-like columns dropped by the base discretizer): fit completes, every feature consistent with its fit alone"
+    multi.jobs = [j for j in multi.jobs if j["mode"] in ("together", "hash")]
+    return [multi,
         k_api.obligation_qual(tier, {"C08"}, "O8.8 end to end on qualitative and ordinal features: completes, attributes coherent, partition well formed and covering, dropped features untouched"),
         k_api.obligation(tier, {"C08"}, "O8.6 end to end: every class completes or raises AssertionError; per-feature attributes coherent; values_orders a well-formed partition covering the training values; dropped features untouched",
                          ["BinaryCarver", "ContinuousCarver", "Discretizer", "QuantitativeDiscretizer", "ContinuousDiscretizer"], ns=[4] if quick else [4, 5], max_pats=6 if quick else 20),
